@@ -43,7 +43,9 @@ def check_case(case, ctx):
     # empty result <=> no admissible start candidate (independent scan)
     model = hmmref.Model(case["graph"], cfg)
     starts = model.start_records(tuple(case["trace"][0][:2]))
-    if not model.ambiguous:
+    if cfg["family"] == "nk" and cfg.get("min_prob_norm"):
+        classes.append("nk:min_prob_norm-start-not-modelled")
+    elif not model.ambiguous:
         if states == [] and starts:
             if common.f1_affected(case) and ctx.known("F1", "InMemMap.edges_closeto drops start candidates whose start node lies outside the box"):
                 classes.append("excluded:F1")
